@@ -144,6 +144,27 @@ def elementary_checks(verdict, spec, nss, tier, seed):
                             verdict.violation(f"RoundTrip|{cname}|{ns}/{dt}", f"inverse(forward({x})) = {xbn[k]!r} on [{lo},{hi}]", scen)
                         if not abs(jbn[k] + jn[k]) <= 2 * tol_j:
                             verdict.violation(f"InvJacNeg|{cname}|{ns}/{dt}", f"inverse log-Jacobian {jbn[k]!r} is not minus the forward one {jn[k]!r} at x={x}", scen)
+                # ---- inverse in the tails of the latent space (points no forward image reaches within the clipping
+                # margin): the log-Jacobian keeps falling like the closed form, it is not frozen at the margin
+                for cname, C in (("logit", LogitTransform), ("probit", ProbitTransform)):
+                    tails = [-30.0, -20.0, -16.0, 16.0, 20.0, 30.0] if cname == "logit" else [-7.5, -6.5, -5.5, 5.5, 6.5, 7.5]
+                    if dt == "float32":
+                        tails = [-10.0, 10.0] if cname == "logit" else [-4.0, 4.0]      # single precision resolves less of the tail
+                    scen = {"builder": "elementary_tails", "params": {"cls": cname, "ns": ns, "dtype": dt, "bounds": b}}
+                    try:
+                        T = C(lower=[lo], upper=[hi], xp=xp, eps=EPS_CLIP, dtype=dt)
+                        T.fit(xp.asarray(np.asarray(pts[:2] or [lo + w / 2], dtype=fdt).reshape(-1, 1)))
+                        xt, jt = T.inverse(xp.asarray(np.asarray(tails, dtype=fdt).reshape(-1, 1)))
+                    except Exception as ex:
+                        verdict.violation(f"NeverRaises|{cname}-tails|{ns}/{dt}|{type(ex).__name__}", f"{cname}.inverse in the tails raised {type(ex).__name__}: {str(ex)[:120]}", scen)
+                        continue
+                    jtn = np.asarray(smcdrv.to_np(jt), dtype=np.float64).reshape(-1)
+                    for k, yv in enumerate(tails):
+                        n_eval += 1
+                        envi = {"y": mpm.mpf(yv), "lower": mpm.mpf(lo), "upper": mpm.mpf(hi), "eps": mpm.mpf(EPS_CLIP), "x": mpm.mpf(lo)}
+                        jie = float(ev(EL[cname]["jinv"], envi))
+                        if not (np.isfinite(jtn[k]) and abs(jtn[k] - jie) <= 1e-3 * (1 + abs(jie)) + (0.05 if dt == "float32" else 0.0)):
+                            verdict.violation(f"ElemJacobian|inverse-tail|{cname}|{ns}/{dt}", f"{cname} inverse log-Jacobian at y={yv} on [{lo},{hi}] = {jtn[k]!r}, closed form {jie!r}", scen)
                 # ---- periodic
                 scen = {"builder": "elementary", "params": {"cls": "periodic", "ns": ns, "dtype": dt, "bounds": b}}
                 wp = [float(fdt(lo + float(rat(q)) * 1.0)) for q in spec["wrappoints"] if abs(float(rat(q))) <= 64]
